@@ -260,7 +260,7 @@ func init() { Registry["C11"] = checkC11 }
 
 func checkC11(c *Ctx) (string, bool, []string) {
 	r := c.R
-	rule := "regex sources = prefix decoration x body x suffix decoration (12 x N x 6, both =~ and !~), bodies enumerated from 49 atoms (literals, classes, groups, alternation with empty branch, ? * + {n} {n,m} {n,}, scoped flags, inner anchors) combined up to 3 deep; alternations and class products of 99/100/101 members; random conditions of 2-7 predicates on two tags joined by AND/OR with parentheses (half of the regex predicates fully anchored finite languages of 1-4 strings, both polarities, so several rewrites meet in one condition). Each rewritten condition is compared with the original on every string of length <=4 (<=5 on a sixteenth of them in thorough) over {a,b,c,z,A,\\n,0,1} plus every substituted literal. Non-trivial = the rewrite changed the condition; distinct by (operator, regex)."
+	rule := "regex sources = prefix decoration x body x suffix decoration (12 x N x 6, both =~ and !~), bodies enumerated from 49 atoms (literals, classes, groups, alternation with empty branch, ? * + {n} {n,m} {n,}, scoped flags, inner anchors) combined up to 3 deep; alternations and class products of 99/100/101 members; 29 sources with anchors inside the branches of a top-level alternation or inside groups; random conditions of 2-7 predicates on two tags joined by AND/OR with parentheses (half of the regex predicates fully anchored finite languages of 1-4 strings, both polarities, so several rewrites meet in one condition). Each rewritten condition is compared with the original on every string of length <=4 (<=5 on a sixteenth of them in thorough) over {a,b,c,z,A,\\n,0,1} plus every substituted literal. Non-trivial = the rewrite changed the condition; distinct by (operator, regex)."
 	assume := []string{"Go's regexp matcher through EvalBool is the meaning of the original condition", "language equality is decided up to the stated string length; substituted literals are checked individually whatever their length"}
 	cands := c11Candidates(4)
 	cands5 := c11Candidates(c.N(4, 5))
@@ -314,6 +314,19 @@ func checkC11(c *Ctx) (string, bool, []string) {
 	}
 	big := []string{mk(99), mk(100), mk(101), "^[a-j][a-j]$", "^[a-j][a-k]$", "^[a-k][a-j]$", "^[a-e][a-e][a-d]$", "^[a-e][a-e][a-e]$", "^[a-e]{3}$",
 		"^([a-j]|k)[a-j]$", "^[a-d][a-e][a-e]$", "^[a-d][a-e]([a-e]|x)$", "^(a|b)(c|d)(e|f)(g|h)(i|j)(k|l)(m|n)$", "^(a|b)(c|d)(e|f)(g|h)(i|j)(k|l)$", "^[a-z][a-c]$", "^[a-z]$", "^[a-zA-Z0-9]$"}
+	// whole sources that do not fit the prefix x body x suffix scheme: anchors
+	// inside the branches of a top-level alternation, in groups, repeated
+	whole := []string{"^$|^a$", "^a$|^$", "^a$|^b$", "^(a|b)$|^$", "^a$|^$|^b$", "^$|^$", "^a|b$", "^a$|b", "a|^b$", "(^a$)|(^b$)", "(^a$|^$)", "^(^a$|^b$)$", "(?:^a$)", "^(?:a$|b$)", "^(?:^a|^b)$",
+		"^a$|^a$", "^ab$|^a$|^$", "^$|a", "^(a|^$)$", "(^)(a)($)", "^a$$|^^b$", "\\Aa\\z|\\Ab\\z", "^a\\z|\\Ab$", "(?i)^a$|^b$", "^a$|(?i)^b$", "(?m)^a$|^b$", "^[ab]$|^c$", "^a?$|^b$", "^a{2}$|^$"}
+	for _, src := range whole {
+		for _, op := range []string{"=~", "!~"} {
+			local := map[string]int64{}
+			c11One(c, op, src, cands, nil, local)
+			local["whole-sources"]++
+			r.DistinctStr(op + src)
+			r.MergeCounts(local)
+		}
+	}
 	bc := c11BigCands()
 	for _, src := range big {
 		for _, op := range []string{"=~", "!~"} {
